@@ -63,6 +63,13 @@ def seq_view(st, v):
     return None
 
 
+def safe_view(st, o, default):
+    """(length, getter) for invariants: reading an empty concrete list yields `default` (only ever under a vacuous range)."""
+    if isinstance(o, ListObj) and o.concrete and not o.items:
+        return z3.IntVal(0), (lambda j: default)
+    return as_symlist(st, o)
+
+
 def as_symlist(st, o):
     """(length term, getter) view of any ListObj."""
     if isinstance(o, MatrixObj):
